@@ -68,9 +68,9 @@ fn spec() -> impl Strategy<Value = CallSpec> {
 
 fn read() -> impl Strategy<Value = Read> {
     prop_oneof![
-        6 => (0u8..6, spec()).prop_map(|(f, s)| Read::Call(f, s)),
-        5 => (proptest::collection::vec((0u8..6, spec()), 1..5), any::<bool>()).prop_map(|(c, o)| Read::CallMany(c, o)),
-        2 => (0u8..6, spec()).prop_map(|(f, s)| Read::Estimate(f, s)),
+        6 => (0u8..8, spec()).prop_map(|(f, s)| Read::Call(f, s)),
+        5 => (proptest::collection::vec((0u8..8, spec()), 1..5), any::<bool>()).prop_map(|(c, o)| Read::CallMany(c, o)),
+        2 => (0u8..8, spec()).prop_map(|(f, s)| Read::Estimate(f, s)),
         1 => (proptest::collection::vec((0u8..6, spec()), 1..3), any::<bool>()).prop_map(|(c, o)| Read::EstimateMany(c, o)),
         2 => (0u8..5, 0u8..4).prop_map(|(p, t)| Read::Balance(p, t)),
         3 => Just(Read::Queries),
@@ -94,6 +94,16 @@ fn from_addr(i: u8) -> String {
     }
 }
 
+/// senders 6 and 7 are accounts *with code* (a known contract, the controller): such a caller is
+/// refused before execution, which is its own path through the simulation code
+fn from_addr_in(r: &Runner, i: u8) -> String {
+    match i {
+        6 => r.contracts.first().map(|a| addr_hex(*a)).unwrap_or_else(|| addr_hex(controller())),
+        7 => addr_hex(controller()),
+        _ => from_addr(i),
+    }
+}
+
 /// (call object, would-mutate-if-committed)
 fn call_obj(r: &Runner, from: u8, s: &CallSpec) -> (Value, bool) {
     let contracts = r.env_contracts();
@@ -106,9 +116,9 @@ fn call_obj(r: &Runner, from: u8, s: &CallSpec) -> (Value, bool) {
             }
             let idx = (*t as usize * contracts.len()) >> 16;
             let m = r.contract_progs.get(idx).and_then(|p| p.as_ref()).map(|p| p.blocks.get(*sel as usize).map(|b| mutating(b)).unwrap_or(false)).unwrap_or(false);
-            (json!({"from": from_addr(from), "to": addr_hex(contracts[idx]), "data": format!("0x{}", hex::encode(evm::calldata(*sel, evm::const_val(*arg))))}), m)
+            (json!({"from": from_addr_in(r, from), "to": addr_hex(contracts[idx]), "data": format!("0x{}", hex::encode(evm::calldata(*sel, evm::const_val(*arg))))}), m)
         }
-        CallSpec::Create(p) => (json!({"from": from_addr(from), "data": format!("0x{}", hex::encode(evm::build_init(p, &env)))}), true),
+        CallSpec::Create(p) => (json!({"from": from_addr_in(r, from), "data": format!("0x{}", hex::encode(evm::build_init(p, &env)))}), true),
         CallSpec::Raw(t, d) => match t.and_then(|t| evm::pick(&contracts, t)) {
             Some(a) => (json!({"from": from_addr(from), "to": addr_hex(a), "input": format!("0x{}", hex::encode(d))}), false),
             None => (json!({"from": from_addr(from), "data": format!("0x{}", hex::encode(d))}), false),
